@@ -173,6 +173,16 @@ def blackhole_scenario(args):
             s.op(f"run {2 * total + 3000}")
             steps = [x for x in steps if rcv(x) == "B"]
         sc.deliver_signalling(s, rng, steps)
+        prune_first, keep_src = False, None
+        if two_streams and rng.random() < 0.45:
+            # both streams check black-holed pairs; the stream that was added FIRST is removed (or restarted) while the second
+            # one's checks are in flight: the pacing timer must stay alive for the second stream's retransmissions
+            prune_first = True
+            sc.deliver_signalling(s, rng, sc.signalling_steps(rng, cfg, sid=2))
+            s.op(f"run {rng.choice([30, 150, 400])}")
+            keep_src = {re.match(r"cand type=\d tr=\d comp=\d+ prio=\d+ addr=(\S+) ", e).group(1) for e in s.op("localcands A 2 1")[0]
+                        if e.startswith("cand ")}
+            s.op(rng.choice(["rmstream A 1", "restartstream A 1"]))
         s.op(f"run {20 * total + 30000}")
         t_end = int(s.op("stats")[1].split()[1].split("=")[1])
         pairs = {}
@@ -181,6 +191,8 @@ def blackhole_scenario(args):
             if m:
                 pairs.setdefault((m.group(2), m.group(3)), []).append((int(m.group(1)), m.group(4)))
         for pr, seq in pairs.items():
+            if keep_src is not None and pr[0] not in keep_src:
+                continue          # (pairs of the removed / restarted stream are not judged)
             npairs += 1
             first, count, order = {}, {}, []
             for t, x in seq:
@@ -206,12 +218,12 @@ def blackhole_scenario(args):
                 break
         if two_streams and not bad:
             # the black-holed stream's components must have been given up (FAILED announced), not left CONNECTING for ever
-            for ag in "AB":
-                q = simlib.parse_q(s.op(f"q {ag} 1 1")[1])
+            for ag in ("AB" if not prune_first else "A"):
+                q = simlib.parse_q(s.op(f"q {ag} {2 if prune_first else 1} 1")[1])
                 if q["state"] not in ("FAILED",):
-                    bad.append(("never-abandoned", f"agent {ag}: stream 1 component 1 is {q['state']} {t_end - 1000000} ms after the checks "
+                    bad.append(("never-abandoned", f"agent {ag}: stream {2 if prune_first else 1} component 1 is {q['state']} {t_end - 1000000} ms after the checks "
                                                    f"began on a fully black-holed path (N={N}, rto={cfg['rto']} ms)"))
-        return dict(seed=seed, bad=bad[:3], script=s.script, npairs=npairs, N=N, one_way=one_way)
+        return dict(seed=seed, bad=bad[:3], script=s.script, npairs=npairs, N=N, one_way=one_way, prune_first=prune_first)
     except simlib.SimDied as e:
         return dict(seed=seed, bad=[("crash", str(e)[-800:])], script=s.script if s else [], npairs=npairs, N=N, one_way=one_way)
     finally:
@@ -275,7 +287,8 @@ def run(tier, seed):
                     for kind, what in r["bad"]:
                         ofail.append({"why": f"{kind}: {what}", "session": r["script"]})
                 chk.cov["generator_distribution"]["blackholed_pairs_inspected"] = sum(r["npairs"] for r in sres)
-                chk.cov["generator_distribution"]["blackhole_sessions"] = {"one_way": sum(1 for r in sres if r["one_way"]),
+                chk.cov["generator_distribution"]["blackhole_sessions"] = {"first_stream_pruned": sum(1 for r in sres if r.get("prune_first")),
+                                                                            "one_way": sum(1 for r in sres if r["one_way"]),
                                                                             "both_ways": sum(1 for r in sres if not r["one_way"])}
             else:
                 chk.note("sim harness build failed: " + slog[-800:])
